@@ -346,6 +346,13 @@ static int bad_OCRAVerify(fc_ctx* c, int j, err_t* exp)
 		exp[0] = ERR_BAD_PWD;
 		return 1;
 	}
+	if (j == 18)
+	{
+		/* a password of the wrong length */
+		((char*)c->a[0])[c->n[0] - 1] = 0;
+		exp[0] = ERR_BAD_PWD;
+		return 1;
+	}
 	return 0;
 }
 
@@ -603,6 +610,42 @@ static void gen_belsRecover(fc_ctx* c) { gen_recover_common(c, 0); }
 static void gen_belsRecover2(fc_ctx* c) { gen_recover_common(c, 1); }
 static err_t call_belsRecover(fc_ctx* c) { return belsRecover(c->a[0], c->n[1], c->n[0], c->a[1], c->a[2], c->a[3]); }
 static err_t call_belsRecover2(fc_ctx* c) { return belsRecover2(c->a[0], c->n[1], c->n[0], c->a[1]); }
+static int bad_belsRecover(fc_ctx* c, int j, err_t* exp)
+{
+	if (j < 9)
+	{
+		size_t big = c->n[1] * 65;
+		c->n[0] = BADKL[j];
+		c->a[1] = fc_sec(c, big), c->a[2] = fc_pub(c, 64), c->a[3] = fc_pub(c, big);
+		c->nouts = 0, c->a[0] = fc_out(c, 64);
+		exp[0] = ERR_BAD_INPUT;
+		return 1;
+	}
+	j -= 9;
+	switch (j)
+	{
+	case 0:
+		/* count == 0 */
+		c->n[1] = 0; exp[0] = ERR_BAD_INPUT; return 1;
+	case 1:
+		/* two equal user keys: bels.h names ERR_BAD_PUBKEY (the recovery needs coprime keys) */
+		if (c->n[1] < 2)
+			return FC_SOFT(exp);
+		memcpy((octet*)c->a[3] + c->n[0], c->a[3], c->n[0]);
+		exp[0] = ERR_BAD_PUBKEY;
+		return 1;
+	case 2:
+		/* two user keys with a common factor: x^l and x^l + x (gcd = x) */
+		if (c->n[1] < 2)
+			return FC_SOFT(exp);
+		memset((octet*)c->a[3], 0, c->n[0]);                    /* m1(x) = x^l */
+		memset((octet*)c->a[3] + c->n[0], 0, c->n[0]);
+		((octet*)c->a[3])[c->n[0]] = 2;                          /* m2(x) = x^l + x: gcd = x */
+		exp[0] = ERR_BAD_PUBKEY;
+		return 1;
+	}
+	return 0;
+}
 static int bad_belsRecover2(fc_ctx* c, int j, err_t* exp)
 {
 	if (j < 9)
@@ -649,7 +692,7 @@ const fc_desc fc_misc[] = {
 	D("belsShare", gen_belsShare, call_belsShare, bad_belsShare, FC_SECRET | FC_RNGARG),
 	D("belsShare2", gen_belsShare2, call_belsShare2, bad_belsShare2, FC_SECRET | FC_RNGARG),
 	D("belsShare3", gen_belsShare2, call_belsShare3, bad_belsShare2, FC_SECRET),
-	D("belsRecover", gen_belsRecover, call_belsRecover, 0, FC_SECRET),
+	D("belsRecover", gen_belsRecover, call_belsRecover, bad_belsRecover, FC_SECRET),
 	D("belsRecover2", gen_belsRecover2, call_belsRecover2, bad_belsRecover2, FC_SECRET),
 };
 const unsigned fc_misc_n = sizeof(fc_misc) / sizeof(fc_misc[0]);
